@@ -11,8 +11,8 @@ BUDGET = {"quick": dict(cases=1000), "thorough": dict(cases=20000)}
 MIN_NONTRIVIAL = {"quick": 2000, "thorough": 30000}
 BLOB = (400, 1500)
 RULE = ("Hypothesis byte-backed generator: tables of 2-9 commands from shared stems in 1-3 groups (handler subsets, 0-2 variables with callbacks, only_test, "
-        "implicit-write, initially disabled commands/groups) and a history of 3-10 lines; between lines - while the parser is quiescent - any subset of command "
-        "and group disable flags is flipped (disabled, re-enabled later). Lines address commands by exact name, other case, abbreviation, implicit write and "
+        "implicit-write, need_all_vars, initially disabled commands/groups) and a history of 3-10 lines; between lines - while the parser is quiescent - any subset of command "
+        "and group disable flags is flipped (disabled, re-enabled later). One case in eight runs in a fresh world process after another parser instance with a different table has been used (hidden state across cat_init calls). Lines address commands by exact name, other case, abbreviation, implicit write and "
         "all four request forms with valid arguments. Oracle per line, with the flag state at that time: the callbacks fired (command identity and kind) equal "
         "what the Resolver over enabled commands plus Availability allow; a gated request is ERROR with no callback; variable storage changes only for the "
         "resolved command. Non-trivial = some line's typed name matches (exactly or as a prefix) a currently disabled command, or requests a form of an "
@@ -40,6 +40,8 @@ def gen(d, tier):
             v["rcb"] = v["wcb"] = 1
             vs.append(v)
         c = S.mk_cmd(nm, h, vs)
+        if d.unlikely(1, 5):
+            c["need_all"] = 1
         if d.unlikely(1, 5):
             c["only_test"] = 1
         if d.unlikely(1, 5):
@@ -74,12 +76,26 @@ def gen(d, tier):
             ln = b"AT" + nm + (b"" if c["implicit"] and d.below(2) else b"=") + G.g_args(d, c, True)
         inp += ln.replace(b"\n", b".").replace(b"\r", b".") + (b"\r\n" if d.below(4) == 0 else b"\n")
     s = S.mk_spec(groups=groups, input=bytes(inp), bufsz=128, rs=G.g_sched(d, 4), ws=G.g_sched(d, 4), actions=actions, flags=S.WF_MONVARS)
-    return dict(spec=s)
+    pre = None
+    if d.unlikely(1, 8):
+        # another parser instance with another table (other group sizes, other flags) used before this one in the same process:
+        # gating must be a function of this descriptor only
+        pc = [S.mk_cmd(G.g_name(d, stems), "wrnt", []) for _ in range(d.rng(2, 9))]
+        pg = G.g_groups(d, pc, maxgroups=3, disable=False)
+        pin = b"".join(b"AT" + c["name"] + b"\n" for c in pc[:4])
+        pre = S.mk_spec(groups=pg, input=pin, bufsz=128)
+    return dict(spec=s, pre=pre)
 
 
 def run(case, W):
     s = case["spec"]
-    t = W.run(s, "plain")
+    if case.get("pre"):
+        ts = W.run_fresh([case["pre"], s], "plain")
+        t = ts[-1]
+        if len(ts) < 2:
+            return Result(violation=("crash", str(t.crash)))
+    else:
+        t = W.run(s, "plain")
     if not t.ok:
         return Result(violation=("crash", str(t.crash)))
     if t.reason != "quiescent":
@@ -152,6 +168,8 @@ def run(case, W):
         return Result(violation=("harness-history", "%d flag flips planned, %d applied" % (flips, len(applied))))
     if flips:
         labels.add("flag-flips")
+    if case.get("pre"):
+        labels.add("after-another-parser-instance")
     if mem[0]:
         return Result(violation=("side-effect", "variables changed before any line"))
     return Result(labels=sorted(labels), nontrivial=nt)
